@@ -97,7 +97,7 @@ def run_config(case, after=3):
     obs = {"text": text, "events": [], "trees": [], "ctor_error": None}
     pyrandom.seed(case["rseed"])
     try:
-        s = ISLaSolver(g, text, timeout_seconds=SOLVER_TIMEOUT, **kw)
+        s = ISLaSolver(g, text, timeout_seconds=case.get("timeout", SOLVER_TIMEOUT), **kw)
     except Exception as e:
         obs["ctor_error"] = "%s: %s" % (type(e).__name__, str(e)[:200])
         return obs
